@@ -18,6 +18,98 @@ pub type Conn<R> = GenericConnection<R, Pid>;
 pub const IDW: u64 = std::mem::size_of::<Pid>() as u64;
 pub const IDMAX: u64 = Pid::MAX as u64;
 
+fn push_bytes(v: &mut Vec<u64>, b: &[u8]) {
+    v.push(b.len() as u64);
+    v.extend(b.iter().map(|x| *x as u64));
+}
+
+/// packet from its serialisation (used by replay): fixed header, remaining length, body
+pub fn packet_from_bytes(ver: u64, b: &[u8]) -> Option<Packet> {
+    if b.len() < 2 {
+        return None;
+    }
+    let mut i = 1;
+    while i < b.len() && i < 5 && b[i] & 0x80 != 0 {
+        i += 1;
+    }
+    i += 1;
+    if i > b.len() {
+        return None;
+    }
+    parse_frame(ver, b[0], &b[i..]).ok()
+}
+
+fn skip_view(t: &[u64], mut i: usize) -> usize {
+    i += 6;
+    let nt = t[i] as usize;
+    i += 1 + nt;
+    i += 2 + 7 + 10;
+    i
+}
+
+/// decode the op tokens of a recorded case (replay); returns the ops
+pub fn ops_from_tokens(groups: &[Vec<u64>]) -> Vec<Op> {
+    let mut out = Vec::new();
+    for t in groups {
+        if t.is_empty() {
+            continue;
+        }
+        let tag = t[0];
+        let bytes_after_view = |start: usize| -> (u64, Vec<u8>, usize) {
+            let ver = t[start + 1];
+            let j = skip_view(t, start);
+            let n = t[j] as usize;
+            (ver, t[j + 1..j + 1 + n].iter().map(|x| *x as u8).collect(), j + 1 + n)
+        };
+        match tag {
+            0 | 17 => {
+                let (ver, b, _) = bytes_after_view(1);
+                if let Some(p) = packet_from_bytes(ver, &b) {
+                    out.push(if tag == 0 { Op::Send(p) } else { Op::Regulate(p) });
+                }
+            }
+            1 => {
+                let n = t[1] as usize;
+                out.push(Op::Recv(t[2..2 + n].iter().map(|x| *x as u8).collect()));
+            }
+            2 => out.push(Op::Timer(t[1])),
+            3 => out.push(Op::Closed),
+            4 => out.push(Op::SetPingreqInterval(if t[1] != 0 { Some(t[2]) } else { None })),
+            5 => out.push(Op::SetPingrespTimeout(t[1])),
+            6..=10 => out.push(Op::SetFlag(tag, t[1] != 0)),
+            11 => out.push(Op::Acquire),
+            12 => out.push(Op::Register(t[1])),
+            13 => out.push(Op::Release(t[1])),
+            14 => out.push(Op::Erase(t[1])),
+            15 => {
+                let n = t[1] as usize;
+                let mut i = 2;
+                let mut l = Vec::new();
+                for _ in 0..n {
+                    let (ver, b, j) = bytes_after_view(i);
+                    i = j;
+                    if let Some(p) = packet_from_bytes(ver, &b) {
+                        match p {
+                            GenericPacket::V3_1_1Publish(x) => l.push(GenericStorePacket::V3_1_1Publish(x)),
+                            GenericPacket::V5_0Publish(x) => l.push(GenericStorePacket::V5_0Publish(x)),
+                            GenericPacket::V3_1_1Pubrel(x) => l.push(GenericStorePacket::V3_1_1Pubrel(x)),
+                            GenericPacket::V5_0Pubrel(x) => l.push(GenericStorePacket::V5_0Pubrel(x)),
+                            _ => {}
+                        }
+                    }
+                }
+                out.push(Op::RestorePackets(l));
+            }
+            16 => {
+                let n = t[1] as usize;
+                out.push(Op::RestoreQos2(t[2..2 + n].to_vec()));
+            }
+            _ => {}
+        }
+    }
+    out
+}
+
 fn push_opt(v: &mut Vec<u64>, o: Option<u64>) {
     match o {
         Some(x) => {
@@ -812,6 +904,7 @@ impl<R: mqtt::connection::role::RoleType> Runner<R> {
             Op::Send(p) => {
                 rec.push(0);
                 view(p).enc(&mut rec);
+                push_bytes(&mut rec, &p.to_continuous_buffer());
             }
             Op::Recv(bytes) => {
                 rec.push(1);
@@ -898,6 +991,7 @@ impl<R: mqtt::connection::role::RoleType> Runner<R> {
                 for sp in l {
                     let gp: Packet = sp.clone().into();
                     view(&gp).enc(&mut rec);
+                    push_bytes(&mut rec, &gp.to_continuous_buffer());
                 }
             }
             Op::RestoreQos2(l) => {
@@ -908,6 +1002,7 @@ impl<R: mqtt::connection::role::RoleType> Runner<R> {
             Op::Regulate(p) => {
                 rec.push(17);
                 view(p).enc(&mut rec);
+                push_bytes(&mut rec, &p.to_continuous_buffer());
             }
         }
         st.ops[rec[0] as usize] += 1;
